@@ -224,11 +224,18 @@ Section Preserve.
     exists w. cbn [ceval ctype]. rewrite Hw. auto.
   Qed.
 
+  Lemma helper_not_minmax f md : helper_name f = Some md -> text_eqb f t_min = false /\ text_eqb f t_max = false.
+  Proof.
+    unfold helper_name. destruct (text_eqb f t_floordiv) eqn:E1.
+    - apply text_eqb_eq in E1. subst f. intros _. split; reflexivity.
+    - destruct (text_eqb f t_mod) eqn:E2; [|discriminate]. apply text_eqb_eq in E2. subst f. intros _. split; reflexivity.
+  Qed.
+
   Lemma P_bin op a b : P a -> P b -> P (EBin op a b).
   Proof.
     intros IHa IHb c v Ht Hg Hp.
-    cbn [to_c] in Ht. destruct (bin_tok op) as [tok|] eqn:Etok; [|discriminate].
-    apply tbind_ok in Ht as (a' & Ha' & Ht). apply tbind_ok in Ht as (b' & Hb' & Ht). inversion Ht; subst c; clear Ht.
+    cbn [to_c] in Ht. destruct (bin_tok op) as [tok0|] eqn:Etok; [|discriminate].
+    apply tbind_ok in Ht as (a' & Ha' & Ht). apply tbind_ok in Ht as (b' & Hb' & Ht).
     cbn [expr_guard] in Hg.
     apply andb_true_iff in Hg as [Hg Hg3]. apply andb_true_iff in Hg as [Hga Hgb].
     destruct (pv rho a) as [x|] eqn:Ex; [|discriminate]. destruct (pv rho b) as [y|] eqn:Ey; [|discriminate].
@@ -242,22 +249,39 @@ Section Preserve.
     rewrite (sty_of _ _ _ Ha' Eta) in Hta. rewrite (sty_of _ _ _ Hb' Etb) in Htb.
     inversion Hta; inversion Htb; subst ta tb.
     split; [exact Hrf|].
-    assert (Hk : exists k w, bintok tok = Some k /\ csem_bin_k k wa wb = COk w /\ vrel v w).
+    destruct (bin_form op) as [[kind tok]|] eqn:Ef; [|discriminate Ht].
+    pose proof (bin_form_in _ _ Ef) as Hin.
+    (* which form the operator must have: infix with a known C++ operator, or a helper template *)
+    assert (Hform : (exists k, kop op = Some k) \/ (exists md, hop op = Some md /\ is_numv x && is_numv y = true)).
     { unfold bin_guard in Hbg. destruct (is_numv x && is_numv y) eqn:En.
-      - destruct (op_guard_kop _ _ _ Hbg) as [k Hk]. exists k.
-        destruct (bin_num_sound _ _ _ _ _ _ _ Hk Hra Hrb Hbg Hp Hrf) as (w & Hw & Hv).
-        exists w. split; [|auto]. apply (bin_table op); [apply bin_tok_in; exact Etok|exact Hk].
-      - destruct op; try discriminate Hbg.
-        apply andb_true_iff in Hbg as [Hbg Hnl]. apply andb_true_iff in Hbg as [Hsx Hsy].
-        destruct x; try discriminate Hsx. destruct y; try discriminate Hsy.
-        cbn in Hp. inversion Hp; subst v.
-        exists KAdd. eexists. split; [apply (bin_table Add); [apply bin_tok_in; exact Etok|reflexivity]|].
-        destruct wa; cbn in Hra; try contradiction; destruct wb; cbn in Hrb; try contradiction; subst;
-        try (cbn in Hnl; discriminate Hnl); (split; [reflexivity|reflexivity]). }
-    destruct Hk as (k & w & Hbt & Hsem & Hv).
-    exists w. cbn [ceval ctype]. rewrite Hbt, Hca. cbn [cbind]. rewrite Hcb. cbn [cbind]. rewrite Hsem. cbn [cbind].
-    split; [reflexivity|]. split; [exact Hv|].
-    rewrite (sty_of _ _ _ Ha' Eta), (sty_of _ _ _ Hb' Etb). apply csem_bin_k_tag. exact Hsem.
+      - destruct (op_guard_cases _ _ _ Hbg) as [Hk|[md Hh]]; [left; exact Hk|right; eauto].
+      - destruct op; try discriminate Hbg. left. eexists. reflexivity. }
+    destruct Hform as [[k Hk]|[md [Hh En]]].
+    - (* infix *)
+      destruct (bin_table _ _ _ _ Hin Hk) as [-> Hbt]. inversion Ht; subst c; clear Ht.
+      assert (Hsem : exists w, csem_bin_k k wa wb = COk w /\ vrel v w).
+      { unfold bin_guard in Hbg. destruct (is_numv x && is_numv y) eqn:En.
+        - exact (bin_num_sound _ _ _ _ _ _ _ Hk Hra Hrb Hbg Hp Hrf).
+        - destruct op; try discriminate Hbg. cbn in Hk. inversion Hk; subst k.
+          apply andb_true_iff in Hbg as [Hbg Hnl]. apply andb_true_iff in Hbg as [Hsx Hsy].
+          destruct x; try discriminate Hsx. destruct y; try discriminate Hsy.
+          cbn in Hp. inversion Hp; subst v.
+          eexists.
+          destruct wa; cbn in Hra; try contradiction; destruct wb; cbn in Hrb; try contradiction; subst;
+          try (cbn in Hnl; discriminate Hnl); (split; [reflexivity|reflexivity]). }
+      destruct Hsem as (w & Hsem & Hv).
+      exists w. cbn [ceval ctype]. rewrite Hbt, Hca. cbn [cbind]. rewrite Hcb. cbn [cbind]. rewrite Hsem. cbn [cbind].
+      split; [reflexivity|]. split; [exact Hv|].
+      rewrite (sty_of _ _ _ Ha' Eta), (sty_of _ _ _ Hb' Etb). apply csem_bin_k_tag. exact Hsem.
+    - (* helper template: both arguments are evaluated (no readings consumed), then the template *)
+      destruct (helper_table _ _ _ _ Hin Hh) as [-> Hn]. inversion Ht; subst c; clear Ht.
+      unfold bin_guard in Hbg. rewrite En in Hbg.
+      destruct (helper_num_sound _ _ _ _ _ _ _ Hh Hra Hrb Hbg Hp Hrf) as (w & Hsem & Hv & Hty).
+      destruct (helper_not_minmax _ _ Hn) as [Hmin Hmax].
+      exists w. cbn [ceval ctype]. rewrite Hmin, Hmax, Hn. cbn [orb].
+      rewrite Hcb. cbn [cbind]. rewrite Hca. cbn [cbind]. rewrite Hsem. cbn [cbind].
+      split; [reflexivity|]. split; [exact Hv|].
+      rewrite (sty_of _ _ _ Ha' Eta), (sty_of _ _ _ Hb' Etb). exact Hty.
   Qed.
 
   Lemma P_un op a : P a -> P (EUn op a).
